@@ -4024,8 +4024,58 @@ func checkLimitNotAllocated(p *Program, r *Report, rule string) {
 		r.Undecided(rule, key, p.Pos(e.Pos()), "cannot identify the memory-limit parameter")
 		return
 	}
-	fromLimit := func(v ssa.Value) bool {
-		return v != nil && flowsFrom(v, func(x ssa.Value) bool { return x == limit }, 0, map[ssa.Value]bool{})
+	// a size that flows from the limit - unless it is capped on the way: min(limit, n), or a phi
+	// that selects between the limit and another value under a comparison of the two
+	var fromLimit func(v ssa.Value) bool
+	capped := func(v ssa.Value) bool {
+		switch x := v.(type) {
+		case *ssa.Call:
+			if builtinName(x.Common()) == "min" {
+				for _, a := range x.Common().Args {
+					if !flowsFrom(a, func(y ssa.Value) bool { return y == limit }, 0, map[ssa.Value]bool{}) {
+						return true
+					}
+				}
+			}
+		case *ssa.Phi:
+			var other ssa.Value
+			hasLimit := false
+			for _, e := range x.Edges {
+				if flowsFrom(e, func(y ssa.Value) bool { return y == limit }, 0, map[ssa.Value]bool{}) {
+					hasLimit = true
+				} else {
+					other = e
+				}
+			}
+			if hasLimit && other != nil {
+				for _, pred := range x.Block().Preds {
+					for _, b := range []*ssa.BasicBlock{pred, pred.Idom()} {
+						if b == nil || len(b.Instrs) == 0 {
+							continue
+						}
+						if iff, ok := b.Instrs[len(b.Instrs)-1].(*ssa.If); ok {
+							if bo, ok := iff.Cond.(*ssa.BinOp); ok {
+								l := flowsFrom(bo.X, func(y ssa.Value) bool { return y == limit }, 0, map[ssa.Value]bool{}) || flowsFrom(bo.Y, func(y ssa.Value) bool { return y == limit }, 0, map[ssa.Value]bool{})
+								o := bo.X == other || bo.Y == other || sameValue(bo.X, other) || sameValue(bo.Y, other)
+								if l && o {
+									return true
+								}
+							}
+						}
+					}
+				}
+			}
+		}
+		return false
+	}
+	fromLimit = func(v ssa.Value) bool {
+		if v == nil || capped(v) {
+			return false
+		}
+		if cv, ok := v.(*ssa.Convert); ok {
+			return fromLimit(cv.X)
+		}
+		return flowsFrom(v, func(x ssa.Value) bool { return x == limit }, 0, map[ssa.Value]bool{})
 	}
 	nAlloc := 0
 	var bad ssa.Instruction
